@@ -11,7 +11,7 @@ import common
 import container as C
 from sx import Sym
 
-RULE = ("exhaustive matrix: 8 public mutators (add_block, remove_block, replace_block, five setters) and 22 public readers (incl. "
+RULE = ("exhaustive matrix: 8 public mutators (add_block, remove_block, replace_block, five setters) and 23 public readers (incl. "
         "iterating the object completely and an iterator advanced once and kept suspended while later calls run) x 11 "
         "access modes (no context; allow_write without context, before and after a first context; read-only context; write "
         "context; context re-entered after a write context; context left by an exception), plus seeded interleavings "
@@ -24,7 +24,7 @@ ASSUMPTIONS = ["private flags are not compared, only their consequences; excepti
 READERS = [(n, True, False) for n in ["blocks", "get_block_type", "get_block_index", "getitem", "data3D", "force_and_torque",
                                       "force_platforms_data", "events", "emg", "calibrationData", "has_data3D", "has_force_and_torque",
                                       "has_force_platforms_data", "has_events", "has_emg", "repr"]] + \
-          [("eq", True, True), ("nBytes", False, False), ("len", False, True), ("copy", False, False),
+          [("eq", True, True), ("eq-other-table", False, True), ("nBytes", False, False), ("len", False, True), ("copy", False, False),
            # iteration over the object itself: completely, and an iterator advanced once and then kept alive (suspended)
            ("iterate", True, False), ("iter-held", True, False)]
 # setters that evaluate a has_* property first (which provides a context of its own when outside one)
@@ -77,6 +77,19 @@ def do_reader(t, name, d, held=None):
         with o:
             pass
         return t == o
+    if name == "eq-other-table":
+        # compared with a well-formed file that has another number of slots (a foreign file): unequal, and nothing left open
+        p = os.path.join(d, "other_table.tdf")
+        if not os.path.exists(p):
+            open(p, "wb").write(C.mkfile(3, []))
+        o = Tdf(p)
+        with o:
+            pass
+        r = t == o
+        h = getattr(o, "handler", None)
+        if h is not None and not h.closed:
+            raise AssertionError("comparison left the OTHER file's handle open")
+        return r
     if name == "nBytes":
         return t.nBytes
     if name == "len":
@@ -184,7 +197,8 @@ class Trace:
 def judge(ctx, tr, desc):
     models = tr.models
     for i, (o, m) in enumerate(zip(tr.obs, models)):
-        rep = dict(trace=desc, start=tr.start.hex() if len(tr.start) < 20000 else None, upto=i)
+        rep = dict(trace=desc, start=tr.start.hex() if len(tr.start) < 20000 else None, upto=i,
+                   steps=[f"{x['kind']}:{x['op'][1] if len(x['op']) > 1 else ''}:{'raised ' + x['raised'] if x['raised'] else 'ok'}{':CHANGED' if x['changed'] else ''}" for x in tr.obs[:i + 1]])
         m_raised, m_changed, m_handle, m_inctx = m[0] == 1, m[1] == 1, m[2], m[3] == 1
         # oracle (the property itself, with the python reference monitor)
         if o["changed"] and not (o["kind"] == "mut" and o["ref_write"]):
